@@ -83,6 +83,9 @@ func gen(t *rapid.T) Case {
 		s.Handler.Final = finalGen(t)
 		s.Client.Ops = append(s.Client.Ops, prog.COp{Op: "closereq"}, prog.COp{Op: "recvall"}, prog.COp{Op: "closeresp"})
 	case "early-exit":
+		// a transport that keeps swallowing request bytes after the response
+		// is complete: only the library can make later Sends fail then
+		s.LingerRequest = s.Transport == "mem" && rapid.Bool().Draw(t, "linger")
 		i := rapid.IntRange(0, 2).Draw(t, "recvs")
 		j := rapid.IntRange(0, 2).Draw(t, "hsends")
 		if i > 0 {
